@@ -676,6 +676,21 @@ func init() {
 	I["(time.Time).After"] = func(th *Thread, fn *ssa.Function, args []Value) Value {
 		return th.m.ts.Cmp(OpSLt, args[1].(Struct)[1].(*Term), args[0].(Struct)[1].(*Term))
 	}
+	I["(time.Time).Truncate"] = func(th *Thread, fn *ssa.Function, args []Value) Value {
+		m := th.m
+		t := args[0].(Struct)
+		d := args[1].(*Term)
+		if d.IsConst() && d.Signed() <= 0 {
+			return t
+		}
+		// instants are non-negative in this model: t - t mod d
+		inst := t[1].(*Term)
+		return m.mkTime(fn.Signature.Results().At(0).Type(), m.ts.Bin(OpSub, inst, m.ts.Bin(OpURem, inst, d)))
+	}
+	I["(time.Time).Round"] = func(th *Thread, fn *ssa.Function, args []Value) Value {
+		th.m.unsupported("time.Time.Round")
+		return nil
+	}
 	I["(time.Time).Add"] = func(th *Thread, fn *ssa.Function, args []Value) Value {
 		t := args[0].(Struct)
 		return th.m.mkTime(fn.Signature.Results().At(0).Type(), th.m.ts.Bin(OpAdd, t[1].(*Term), args[1].(*Term)))
